@@ -7,6 +7,7 @@
 #include <cstdlib>
 #include <cstring>
 #include <functional>
+#include <new>
 #include <stdexcept>
 #include <string>
 #include <type_traits>
@@ -96,6 +97,7 @@ inline std::string guarded(F&& f)
   std::string r;
   try { r = f(); }
   catch (const std::runtime_error&) { r = "abort"; }
+  catch (const std::bad_alloc&) { r = "badalloc"; }
   g_jmp_armed = 0;
   return r;
 }
@@ -105,11 +107,12 @@ inline void main_loop(const std::function<std::string(const std::vector<std::str
   install_fault_handler();
   static char buf[1 << 16];
   std::string out; out.reserve(1 << 20);
+  const bool flush_each = getenv("VH_FLUSH") != nullptr; // used when re-running a chunk to locate a crash
   while (fgets(buf, sizeof buf, stdin)) {
     auto toks = split(buf);
     if (toks.empty() || toks[0][0] == '#') continue;
     out += step(toks); out.push_back('\n');
-    if (out.size() > (1 << 19)) { fwrite(out.data(), 1, out.size(), stdout); out.clear(); }
+    if (flush_each || out.size() > (1 << 19)) { fwrite(out.data(), 1, out.size(), stdout); out.clear(); if (flush_each) fflush(stdout); }
   }
   fwrite(out.data(), 1, out.size(), stdout);
   fflush(stdout);
